@@ -91,23 +91,25 @@ CLAIMS = {
 
 # technique additions of the round-3 rules (appended to the technique text)
 ROUND3 = {
- "C01": "nondeterminism-source census extended to hash/maphash, map-order APIs (maps.Keys, sync.Map.Range, reflect map iteration) and address-to-integer conversions; typestate rule 'no use after sync.Pool.Put' and dominance rule 'exported rendering entry point resets the scratch state first'",
- "C10": "nondeterminism-source census extended to hash/maphash and map-order APIs",
- "C02": "must-ask-the-policy path rule for integer constants of symbolic expressions (every path of the constant node's renderer calls the renamer; the renamer answers from ShouldAbstract with a fixed placeholder); polarity clauses of the trip-count derivation; virtual-successor-view census (block order and second-successor reads), canonical-order provenance of the block list used to collect moved instructions, symbolic path analysis of the literal policy's keep results (through negations, merges and helper calls)",
+ "C01": "nondeterminism-source census extended to hash/maphash, map-order APIs (maps.Keys, sync.Map.Range, reflect map iteration) and address-to-integer conversions; typestate rule 'no use after sync.Pool.Put' and dominance rule 'exported rendering entry point resets the scratch state first'; C15's hardened-environment rules and a loader-working-directory rule run under C01",
+ "C10": "nondeterminism-source census extended to hash/maphash and map-order APIs; qualified-name rule for the sort key of results",
+ "C02": "must-ask-the-policy path rule for integer constants of symbolic expressions (every path of the constant node's renderer calls the renamer; the renamer answers from ShouldAbstract with a fixed placeholder); polarity clauses of the trip-count derivation; virtual-successor-view census (block order and second-successor reads), canonical-order provenance of the block list used to collect moved instructions, symbolic path analysis of the literal policy's keep results (through negations, merges and helper calls); renamer-threading census of the symbolic printers (every sub-expression through StringWithRenamer; start before step)",
  "C03": "every-path rule for the loop tag of recurrences; exact-rendering rule for constant values; census of reordered sequences by provenance (operand lists of SSA constructs vs reviewed table)",
- "C04": "all structural conditions of C03 re-run under C04 (fingerprint short-circuit); conjunction analysis of the comparator (with one attribute equality taken as false no return can yield true); the zipper's map discipline (C09.MAPS) run under C04",
- "C05": "provenance of generated signature IDs (per-iteration value and database-state/content/random value, followed through helper parameters); producer/consumer agreement of the entropy figure; slot/field agreement at every call of the packed-value encoder (followed through helper parameters)",
- "C08": "guard-edge rule for replacements of the configured threshold (store and phi form): only under a test that found it outside (0,1]; haystack/needle provenance of containment tests in the requirement matchers; guard direction of ratio inversion",
- "C09": "function-enumeration rules shared with C16; flow rule for the operation lists between collection and report; mark/test index agreement of the used-sets; counter-follows-status path rule; both-indices-advance rule for the positional alignment",
- "C12": "census of value kinds opened by the summary builder; truncated-division-only rule for big-integer arithmetic in the loop package",
- "C14": "every-request-reaches-the-manager path rule over the CLI adapter's mount collector (excuses: empty, unresolvable, exact duplicate)",
- "C16": "guard-shape census of the member/type/method enumeration (only kind, nil, emptiness and loop tests may keep a member from the enumerator); reader-limit-above-size-limit rule; complete-range rule for the method loop",
+ "C04": "all structural conditions of C03 re-run under C04 (fingerprint short-circuit); conjunction analysis of the comparator (with one attribute equality taken as false no return can yield true); the zipper's map discipline (C09.MAPS) run under C04; distinct old/new argument rule; recorded exchange pair is the exchange; conjunction analysis over paired parameters and helper comparisons",
+ "C05": "provenance of generated signature IDs (per-iteration value and database-state/content/random value, followed through helper parameters); producer/consumer agreement of the entropy figure; slot/field agreement at every call of the packed-value encoder (followed through helper parameters); case-folding symmetry of string tests; uniqueness of json names within a serialised struct",
+ "C08": "guard-edge rule for replacements of the configured threshold (store and phi form): only under a test that found it outside (0,1]; haystack/needle provenance of containment tests in the requirement matchers; guard direction of ratio inversion; pre-filter boundary/fallback shape census",
+ "C09": "function-enumeration rules shared with C16; flow rule for the operation lists between collection and report; mark/test index agreement of the used-sets; counter-follows-status path rule; both-indices-advance rule for the positional alignment; agreement of the side a named bound falls on across sites; position/list agreement in the rename pass; comparator conjunction shared with C04",
+ "C12": "census of value kinds opened by the summary builder; truncated-division-only rule for big-integer arithmetic in the loop package; exactly-one-exit atom; renamer-threading / start-before-step census (shared with C02)",
+ "C14": "every-request-reaches-the-manager path rule over the CLI adapter's mount collector (excuses: empty, unresolvable, exact duplicate); json names of the specification types follow the runtime specification; one named constant per resource limit",
+ "C16": "guard-shape census of the member/type/method enumeration (only kind, nil, emptiness and loop tests may keep a member from the enumerator); reader-limit-above-size-limit rule; complete-range rule for the method loop; report attribution from the result's own file/line; failure-exits-non-zero path rule in the entry point; no SkipAll in the collector",
  "C17": "bounded-read rule for every whole-content read in production code; bucket cap on the bucket's own length; recorded node size counts both operands; running byte budget is spent",
- "C18": "error-propagation path rule at every storage call of the commands (no success-capable return reachable from the error edge); success-only-after-record-write and every-batch-element-written path rules in the embedded store",
- "C19": "result-carries-function rule shared with C16; comparator-direction rule for the candidate sort",
- "C06": "packed-value slot/field agreement shared with C05; re-check/iterator interval agreement for range scans; role-aware emptiness test of stale deletes",
- "C11": "the one-batch rule of C07 run under C11",
- "C13": "case-folding agreement between text and phrase list; constant lower bound on the nonce length",
+ "C18": "error-propagation path rule at every storage call of the commands (no success-capable return reachable from the error edge); success-only-after-record-write and every-batch-element-written path rules in the embedded store; non-empty flush and slot-zero boundary tests",
+ "C19": "result-carries-function rule shared with C16; comparator-direction rule for the candidate sort; position/list agreement shared with C09",
+ "C06": "packed-value slot/field agreement shared with C05; re-check/iterator interval agreement for range scans; role-aware emptiness test of stale deletes; strict boundary and fallback shape of every entropy pre-filter (shared with C08)",
+ "C11": "the one-batch rule of C07 run under C11; one-snapshot-per-scan rule; stale-entry discipline of C06 run under C11",
+ "C13": "case-folding agreement between text and phrase list; constant lower bound on the nonce length; bound agreement with the diff stage; the sentinel is handed the builder's payload result",
+ "C07": "packed-value slot/field agreement at every writer (shared with C05/C06)",
+ "C20": "no lexical cleaning before symlink resolution; the resolver is applied to the opened spelling",
 }
 
 PENDING_REASON = "static check for this property is not armed yet in this revision of the machinery (see DESIGN.md §4 for the planned structural clauses); not claimed until its rules run silent on the tree and fire on their mutants"
